@@ -282,7 +282,11 @@ pub fn number_to_string(
     args: &[JsValue],
 ) -> Result<Guarded, JsError> {
     let n = get_number_value(interp, &this)?;
-    let radix = args.first().map(|v| v.to_number() as i32).unwrap_or(10);
+    // An absent or undefined radix means 10
+    let radix = match args.first() {
+        None | Some(JsValue::Undefined) => 10,
+        Some(v) => v.to_number() as i32,
+    };
 
     if !(2..=36).contains(&radix) {
         return Err(JsError::range_error(
@@ -303,38 +307,74 @@ pub fn number_to_string(
         ))));
     }
 
-    let int_val = n as i64;
-    let result = match radix {
-        2 => format!("{:b}", int_val.abs()),
-        8 => format!("{:o}", int_val.abs()),
-        16 => format!("{:x}", int_val.abs()),
-        _ => {
-            // Generic radix conversion
-            const DIGITS: &[u8] = b"0123456789abcdefghijklmnopqrstuvwxyz";
-            let mut num = int_val.abs();
-            let mut result = String::new();
-            while num > 0 {
-                let digit_idx = (num % radix as i64) as usize;
-                // radix is validated to be 2-36, so digit_idx is always 0-35
-                if let Some(&ch) = DIGITS.get(digit_idx) {
-                    result.insert(0, ch as char);
-                }
-                num /= radix as i64;
-            }
-            if result.is_empty() {
-                result = "0".to_string();
-            }
-            result
-        }
-    };
-
-    let result = if int_val < 0 {
-        format!("-{}", result)
+    // The digits of a whole number of any magnitude (every double from 2^53 on is whole):
+    // n = mantissa * 2^exponent exactly, so the conversion is done on that integer
+    let digits = integral_magnitude_to_radix(n.abs(), radix as u64);
+    let result = if n < 0.0 {
+        format!("-{}", digits)
     } else {
-        result
+        digits
     };
 
     Ok(Guarded::unguarded(JsValue::String(JsString::from(result))))
+}
+
+/// The digits, in base `radix` (2..=36), of the whole non-negative finite double `magnitude`.
+///
+/// The double is `mantissa * 2^exponent` exactly; the integer is built in 32-bit limbs and
+/// divided down by the radix, so no digit depends on a fixed-width conversion.
+fn integral_magnitude_to_radix(magnitude: f64, radix: u64) -> String {
+    const DIGITS: &[u8] = b"0123456789abcdefghijklmnopqrstuvwxyz";
+    let bits = magnitude.to_bits();
+    let biased = ((bits >> 52) & 0x7ff) as i64;
+    let fraction = bits & ((1u64 << 52) - 1);
+    // value = mantissa * 2^exponent
+    let (mantissa, exponent) = if biased == 0 {
+        (fraction, -1074i64)
+    } else {
+        (fraction | (1u64 << 52), biased - 1075)
+    };
+    // Little-endian 32-bit limbs of the integer
+    let mut limbs: Vec<u32> = if exponent < 0 {
+        // a whole number: the bits shifted out are zero
+        let shifted = if exponent <= -64 {
+            0
+        } else {
+            mantissa >> (-exponent) as u32
+        };
+        vec![shifted as u32, (shifted >> 32) as u32]
+    } else {
+        let word_shift = (exponent / 32) as usize;
+        let bit_shift = (exponent % 32) as u32;
+        let wide = (mantissa as u128) << bit_shift;
+        let mut limbs = vec![0u32; word_shift];
+        limbs.push(wide as u32);
+        limbs.push((wide >> 32) as u32);
+        limbs.push((wide >> 64) as u32);
+        limbs
+    };
+    let mut out: Vec<u8> = Vec::new();
+    loop {
+        while limbs.last() == Some(&0) {
+            limbs.pop();
+        }
+        if limbs.is_empty() {
+            break;
+        }
+        // divide the limbs by the radix, most significant first; the remainder is the next digit
+        let mut remainder: u64 = 0;
+        for limb in limbs.iter_mut().rev() {
+            let current = (remainder << 32) | u64::from(*limb);
+            *limb = (current / radix) as u32;
+            remainder = current % radix;
+        }
+        out.push(DIGITS.get(remainder as usize).copied().unwrap_or(b'0'));
+    }
+    if out.is_empty() {
+        return "0".to_string();
+    }
+    out.reverse();
+    String::from_utf8_lossy(&out).into_owned()
 }
 
 // Number.prototype.toPrecision
